@@ -596,6 +596,202 @@ class Encoder:
         return out
 
 
+# ------------------------------------------------------------------ value-returning module functions (EncDSLV.v)
+class ValueFn:
+    """create_message / create_gzip_message / create_snappy_message / create_message_set: tree-shaped programs that
+    return a Message or a list of Messages.  Understood:
+      asserts made of isinstance(..), `x is None`, `x in (<int constants>)` joined by and/or   -> dropped (noted)
+      x = int(time.time() * 1000)                     VLetNow          x = KafkaCodec._encode_message_set(e)   VLetMsgSet
+      x = gzip_encode(e) / snappy_encode(e)           VLetCodec
+      acc = [] ; for x in e: <extend statements>      VLetBuild   with   if <test>: .. else: ..   and
+                                                      acc.extend([create_message(p, key=k[, magic=m]) for y in coll])
+      if <e == CONST>: .. elif .. else: ..            VCond (the rest of the block is translated once per branch)
+      return <name> | Message(a, b, c, d[, timestamp=e]) | [create_gzip_message(l, m)] | [create_snappy_message(l, m)]
+      raise UnsupportedCodecError(..) / ProtocolError(..)"""
+
+    def __init__(self, fn, consts):
+        self.fn, self.consts, self.notes = fn, consts, []
+        a = fn.args
+        if a.vararg or a.kwarg or a.kwonlyargs or a.posonlyargs:
+            refuse(fn, "parameter kinds other than plain positional")
+        self.params = [x.arg for x in a.args]
+
+    def pure(self, e, env):
+        if isinstance(e, ast.Constant) and e.value is None:
+            return ("none",)
+        if isinstance(e, ast.Constant) and isinstance(e.value, int) and not isinstance(e.value, bool):
+            return ("const", e.value)
+        if isinstance(e, ast.Name):
+            if e.id in env:
+                return env[e.id]
+            if e.id in self.consts:
+                return ("const", self.consts[e.id])
+            refuse(e, "name %r is not a parameter, a bound local or a module constant" % e.id)
+        if isinstance(e, ast.Attribute):
+            return ("field", self.pure(e.value, env), e.attr)
+        refuse(e, "expression " + type(e).__name__)
+
+    def test(self, t, env):
+        if isinstance(t, ast.Compare) and len(t.ops) == 1 and isinstance(t.ops[0], ast.Eq):
+            rhs = self.pure(t.comparators[0], env)
+            if rhs[0] == "const":
+                return ("ceq", self.pure(t.left, env), rhs[1])
+        if isinstance(t, ast.Compare) and len(t.ops) == 1 and isinstance(t.ops[0], ast.Is) \
+                and isinstance(t.comparators[0], ast.Constant) and t.comparators[0].value is None:
+            return ("cnone", self.pure(t.left, env))
+        refuse(t, "test " + ast.unparse(t)[:60])
+
+    def guard_test(self, t):
+        if isinstance(t, ast.BoolOp):
+            return all(self.guard_test(v) for v in t.values)
+        if isinstance(t, ast.Call) and isinstance(t.func, ast.Name) and t.func.id == "isinstance":
+            return True
+        if isinstance(t, ast.Compare) and len(t.ops) == 1:
+            if isinstance(t.ops[0], (ast.Is, ast.IsNot)) and isinstance(t.comparators[0], ast.Constant) and t.comparators[0].value is None:
+                return True
+            if isinstance(t.ops[0], ast.In) and isinstance(t.comparators[0], (ast.Tuple, ast.List)) \
+                    and all(isinstance(x, ast.Constant) and isinstance(x.value, int) for x in t.comparators[0].elts):
+                return True
+        return False
+
+    def call_named(self, v, name):
+        return isinstance(v, ast.Call) and isinstance(v.func, ast.Name) and v.func.id == name
+
+    def message_ctor(self, v, env):
+        if not self.call_named(v, "Message") or len(v.args) != 4 or any(k.arg != "timestamp" for k in v.keywords) or len(v.keywords) > 1:
+            return None
+        xs = [self.pure(a, env) for a in v.args]
+        ts = self.pure(v.keywords[0].value, env) if v.keywords else ("none",)
+        return ("xmessage", xs[0], xs[1], xs[2], xs[3], ts)
+
+    def seqv(self, stmts, env, level):
+        if not stmts:
+            refuse(self.fn, "a path through the function does not end with return / raise")
+        stmt, rest = stmts[0], list(stmts[1:])
+        if isinstance(stmt, ast.Expr) and isinstance(stmt.value, ast.Constant) and isinstance(stmt.value.value, str):
+            return self.seqv(rest, env, level)
+        if isinstance(stmt, ast.Assert) and self.guard_test(stmt.test):
+            self.notes.append("guard dropped: " + ast.unparse(stmt).splitlines()[0][:80])
+            return self.seqv(rest, env, level)
+        if isinstance(stmt, ast.Raise):
+            e = stmt.exc
+            name = e.func.id if isinstance(e, ast.Call) and isinstance(e.func, ast.Name) else None
+            if name not in RAISES:
+                refuse(stmt, "raise of " + str(name))
+            return ("vraise", RAISES[name])
+        if isinstance(stmt, ast.Return):
+            if rest:
+                refuse(stmt, "statement after return")
+            v = stmt.value
+            m = self.message_ctor(v, env) if v is not None else None
+            if m is not None:
+                return ("vret", m)
+            if isinstance(v, ast.Name):
+                return ("vret", ("xe", self.pure(v, env)))
+            if isinstance(v, ast.List) and len(v.elts) == 1:
+                c = v.elts[0]
+                for fname, kind in (("create_gzip_message", 1), ("create_snappy_message", 2)):
+                    if self.call_named(c, fname) and len(c.args) == 2 and not c.keywords:
+                        return ("vletwrap", kind, self.pure(c.args[0], env), self.pure(c.args[1], env),
+                                ("vret", ("xlist1", ("xe", ("var", level)))))
+            refuse(stmt, "return value " + ast.unparse(v)[:60] if v is not None else "bare return")
+        if isinstance(stmt, ast.If):
+            c = self.test(stmt.test, env)
+            return ("vcond", c, self.seqv(list(stmt.body) + rest, dict(env), level), self.seqv(list(stmt.orelse) + rest, dict(env), level))
+        if isinstance(stmt, ast.Assign) and len(stmt.targets) == 1 and isinstance(stmt.targets[0], ast.Name):
+            name, v = stmt.targets[0].id, stmt.value
+            env2 = dict(env)
+            env2[name] = ("var", level)
+            if Encoder.is_now(None, v):
+                return ("vletnow", self.seqv(rest, env2, level + 1))
+            if isinstance(v, ast.Call) and isinstance(v.func, ast.Attribute) and v.func.attr == "_encode_message_set" \
+                    and isinstance(v.func.value, ast.Name) and v.func.value.id == "KafkaCodec" and len(v.args) == 1 and not v.keywords:
+                return ("vletms", self.pure(v.args[0], env), self.seqv(rest, env2, level + 1))
+            for fname, kind in (("gzip_encode", 1), ("snappy_encode", 2)):
+                if self.call_named(v, fname) and len(v.args) == 1 and not v.keywords:
+                    return ("vletcodec", kind, self.pure(v.args[0], env), self.seqv(rest, env2, level + 1))
+            if isinstance(v, ast.List) and not v.elts and rest and isinstance(rest[0], ast.For) and not rest[0].orelse:
+                loop = rest[0]
+                if not isinstance(loop.target, ast.Name):
+                    refuse(loop, "loop target")
+                outer = self.pure(loop.iter, env)
+                envl = dict(env)
+                envl[loop.target.id] = ("var", level)
+                items = self.bitems(loop.body, envl, level + 1, name)
+                return ("vletbuild", outer, items, self.seqv(rest[1:], env2, level + 1))
+        refuse(stmt, "statement " + type(stmt).__name__ + ": " + ast.unparse(stmt).splitlines()[0][:60])
+
+    def bitems(self, stmts, env, level, acc):
+        out = []
+        for st in stmts:
+            if isinstance(st, ast.If):
+                out.append(("bcond", self.test(st.test, env), self.bitems(st.body, env, level, acc), self.bitems(st.orelse, env, level, acc)))
+                continue
+            ok = isinstance(st, ast.Expr) and isinstance(st.value, ast.Call) and isinstance(st.value.func, ast.Attribute) \
+                and st.value.func.attr == "extend" and isinstance(st.value.func.value, ast.Name) and st.value.func.value.id == acc \
+                and len(st.value.args) == 1 and isinstance(st.value.args[0], ast.ListComp)
+            if not ok:
+                refuse(st, "statement in the list-building loop: " + ast.unparse(st).splitlines()[0][:60])
+            comp = st.value.args[0]
+            if len(comp.generators) != 1 or comp.generators[0].ifs or comp.generators[0].is_async or not isinstance(comp.generators[0].target, ast.Name):
+                refuse(st, "comprehension shape")
+            g = comp.generators[0]
+            coll = self.pure(g.iter, env)
+            envc = dict(env)
+            envc[g.target.id] = ("var", level)
+            c = comp.elt
+            if not self.call_named(c, "create_message") or len(c.args) != 1 or any(k.arg not in ("key", "magic") for k in c.keywords):
+                refuse(st, "comprehension element is not create_message(p, key=.., magic=..)")
+            kw = {k.arg: self.pure(k.value, envc) for k in c.keywords}
+            out.append(("bextend", coll, self.pure(c.args[0], envc), kw.get("key", ("none",)), kw.get("magic", ("const", 0))))
+        return out
+
+    def translate(self):
+        env = {n: ("var", i) for i, n in enumerate(self.params)}
+        return self.seqv(list(self.fn.body), env, len(self.params))
+
+
+def p_vex(x):
+    if x[0] == "xe":
+        return "XE (%s)" % p_ex(x[1])
+    if x[0] == "xmessage":
+        return "XMessage (%s) (%s) (%s) (%s) (%s)" % tuple(p_ex(e) for e in x[1:])
+    return "XList1 (%s)" % p_vex(x[1])
+
+
+def p_bitems(bs, ind):
+    pad = " " * ind
+    if not bs:
+        return pad + "[]"
+    def one(b):
+        if b[0] == "bcond":
+            return "BCond (%s)\n%s\n%s" % (p_cond(b[1]), p_bitems(b[2], ind + 3), p_bitems(b[3], ind + 3))
+        return "BExtendCreate (%s) (%s) (%s) (%s)" % tuple(p_ex(e) for e in b[1:])
+    return pad + "[" + (";\n" + pad + " ").join(one(b) for b in bs) + "]"
+
+
+def p_vprog(p, ind=2):
+    pad = " " * ind
+    k = p[0]
+    if k == "vret":
+        return pad + "(VRet (%s))" % p_vex(p[1])
+    if k == "vraise":
+        return pad + "(VRaise %s)" % p[1]
+    if k == "vcond":
+        return pad + "(VCond (%s)\n%s\n%s)" % (p_cond(p[1]), p_vprog(p[2], ind + 2), p_vprog(p[3], ind + 2))
+    if k == "vletnow":
+        return pad + "(VLetNow\n%s)" % p_vprog(p[1], ind + 2)
+    if k == "vletms":
+        return pad + "(VLetMsgSet (%s)\n%s)" % (p_ex(p[1]), p_vprog(p[2], ind + 2))
+    if k == "vletcodec":
+        return pad + "(VLetCodec %d (%s)\n%s)" % (p[1], p_ex(p[2]), p_vprog(p[3], ind + 2))
+    if k == "vletbuild":
+        return pad + "(VLetBuild (%s)\n%s\n%s)" % (p_ex(p[1]), p_bitems(p[2], ind + 2), p_vprog(p[3], ind + 2))
+    if k == "vletwrap":
+        return pad + "(VLetWrapper %d (%s) (%s)\n%s)" % (p[1], p_ex(p[2]), p_ex(p[3]), p_vprog(p[4], ind + 2))
+    raise ValueError(k)
+
+
 # ------------------------------------------------------------------ printing as Gallina
 def zlit(z):
     return "(%d)" % z if z < 0 else str(z)
@@ -625,6 +821,8 @@ def p_ex(e):
         return "EAdd (%s) (%s)" % (p_ex(e[1]), p_ex(e[2]))
     if k == "mul":
         return "EMul (%s) (%s)" % (p_ex(e[1]), p_ex(e[2]))
+    if k == "none":
+        return "ENone"
     raise ValueError(k)
 
 
@@ -703,8 +901,43 @@ def translate_source(text):
     return out
 
 
+VALUE_FNS = ["create_message", "create_gzip_message", "create_snappy_message", "create_message_set"]
+
+
+def module_int_constants(text):
+    out = {}
+    for st in ast.parse(text).body:
+        if isinstance(st, ast.Assign) and len(st.targets) == 1 and isinstance(st.targets[0], ast.Name) \
+                and isinstance(st.value, ast.Constant) and isinstance(st.value.value, int) and not isinstance(st.value.value, bool):
+            out[st.targets[0].id] = st.value.value
+    return out
+
+
+def translate_values(text, consts):
+    tree = ast.parse(text)
+    fns = {n.name: n for n in tree.body if isinstance(n, ast.FunctionDef)}
+    out = {}
+    for name in VALUE_FNS:
+        if name not in fns:
+            out[name] = ("refused", "function not found")
+            continue
+        try:
+            vf = ValueFn(fns[name], consts)
+            out[name] = ("ok", p_vprog(vf.translate()), vf.params, vf.notes)
+        except Refused as e:
+            out[name] = ("refused", str(e))
+        except RecursionError:
+            out[name] = ("refused", "recursion limit")
+    return out
+
+
 def translate_repo(repo):
-    return translate_source(open(os.path.join(repo, "afkak", "kafkacodec.py")).read())
+    text = open(os.path.join(repo, "afkak", "kafkacodec.py")).read()
+    res = translate_source(text)
+    consts = module_int_constants(open(os.path.join(repo, "afkak", "common.py")).read())
+    consts.update(module_int_constants(text))
+    res.update(translate_values(text, consts))
+    return res
 
 
 def gen_name(fn):
@@ -713,19 +946,24 @@ def gen_name(fn):
 
 def emit_gallina(results):
     lines = ["(* GENERATED by harness/py2enc.py from afkak/kafkacodec.py - do not edit *)",
-             "From Coq Require Import String.", "From AV Require Import Base.Util Model.Prim Model.EncDSL.",
+             "From Coq Require Import String.", "From AV Require Import Base.Util Model.Prim Model.EncDSL Model.EncDSLV.",
              "Open Scope string_scope.", ""]
     for fn in ENCODERS:
         r = results[fn]
         if r[0] == "ok":
             lines.append("(* %s(%s) *)" % (fn, ", ".join(r[2])))
             lines.append("Definition %s : prog :=\n%s.\n" % (gen_name(fn), r[1]))
+    for fn in VALUE_FNS:
+        r = results.get(fn, ("refused", "not translated"))
+        if r[0] == "ok":
+            lines.append("(* %s(%s) *)" % (fn, ", ".join(r[2])))
+            lines.append("Definition %s : vprog :=\n%s.\n" % (gen_name(fn), r[1]))
     return "\n".join(lines)
 
 
 if __name__ == "__main__":
     import sys
     res = translate_repo(sys.argv[1] if len(sys.argv) > 1 else "/repo")
-    for fn in ENCODERS:
+    for fn in ENCODERS + VALUE_FNS:
         print(fn, res[fn][0], res[fn][1] if res[fn][0] == "refused" else "")
     print(emit_gallina(res))
